@@ -74,14 +74,18 @@ def merge_required_rule(mod, rep, rid):
         ps = ts_common.fn_params(d)
         # accumulator: identifier rendered inside the value of a `required:` property of a returned object
         accs = set()
-        for r in walk(body):
-            if r["type"] != "ReturnStatement" or r.get("argument") is None:
-                continue
-            for o in walk(r["argument"]):
-                if o["type"] == "KeyValueProperty" and tsast.prop_key(o["key"]) == "required":
-                    for i in walk(o["value"]):
-                        if i["type"] == "Identifier":
-                            accs.add(i["value"])
+        for o in walk(body):
+            # `required: <expr>` in an object literal, or `<obj>.required = <expr>`
+            val = None
+            if o["type"] == "KeyValueProperty" and tsast.prop_key(o["key"]) == "required":
+                val = o["value"]
+            elif o["type"] == "AssignmentExpression" and unparen(o["left"]).get("type") == "MemberExpression" and s(o["left"]).endswith(".required"):
+                val = o["right"]
+            if val is not None:
+                for i in walk(val):
+                    if i["type"] == "Identifier":
+                        accs.add(i["value"])
+        accs -= set(ps)
         if not accs:
             continue
         loops = [l for l in body["stmts"] if l["type"] == "ForOfStatement" and s(l["right"]) in ps]
@@ -265,6 +269,38 @@ def run(cx, rep):
                    "%s.schema returns `%s` for a type with an index signature without using the index-signature schemas: the key constraint (propertyNames) is lost, so documents with keys the validator rejects are valid against the schema" % (cname, s(r["argument"])[:80]),
                    mod.loc(r), sample={"class": cname, "return": s(r["argument"])[:80]})
         rep.floor("C02.5", "index-signature returns of %s.schema" % cname, n_ret, 2)
+    # ---------------------------------------------------------------- C02.7
+    rep.rule("C02.7", "every call from the parser facade into a validator gets a context created in that call")
+    # The per-call contexts carry scratch state (`path`, the `seen` marks of references being printed) that the
+    # printers restore only on normal exit.  A context that outlives the call - instance or module state - keeps the
+    # marks of a call that threw (Date, bigint, Map ..): the next schema() call then sees the type as "being printed"
+    # and returns {} instead of throwing.  Required: the ctx argument is an object literal, or a local const initialised
+    # with one, inside the calling method.
+    n_ctx = 0
+    for cname, c in sorted(mod.classes.items()):
+        if "BeffParser" not in c.implements:
+            continue
+        for mname, m in sorted(c.methods.items()):
+            fn = m["function"]
+            if fn.get("body") is None:
+                continue
+            al = ts_common.local_aliases(fn)
+            for n in walk(fn):
+                if n["type"] != "CallExpression":
+                    continue
+                mc = method_call(n)
+                if not mc or not s(mc[0]).startswith("this._runtype") or not mc[2] or mc[1] not in fam.iface_methods:
+                    continue
+                a0 = unparen(mc[2][0])
+                src = a0
+                if a0.get("type") == "Identifier" and a0["value"] in al:
+                    src = unparen(al[a0["value"]])
+                n_ctx += 1
+                fresh = src.get("type") == "ObjectExpression"
+                rep.ob("C02.7", "%s.%s/%s" % (cname, mname, mc[1]), fresh,
+                       "%s.%s hands `%s` to %s(): the context is not created in this call, so marks left behind by a call that threw (or by a concurrent print) are seen by the next one" % (cname, mname, s(a0)[:50], mc[1]),
+                       mod.loc(n), sample={"facade_method": mname, "callee": mc[1], "ctx": "fresh object literal"})
+    rep.floor("C02.7", "facade calls into the validator", n_ctx, 8)
     # ---------------------------------------------------------------- C02.6
     rep.rule("C02.6", "a merged object schema requires what every merged member requires")
     merge_required_rule(mod, rep, "C02.6")
